@@ -424,8 +424,10 @@ class MacroProgram(ElementProgram):
             CASE = skip
         else:
             value = nodes.Value(clause)
-            for switch in reversed(self._switches):
-                if switch is not None:
+            # The case belongs to the switch of a parent element (the
+            # last entry is this element's own switch).
+            for parent in reversed(self._switches[:-1]):
+                if parent is not None:
                     break
             else:
                 raise LanguageError(
@@ -439,14 +441,14 @@ class MacroProgram(ElementProgram):
                     [nodes.Alias(["default"], self.default_marker)],
                     nodes.Condition(
                         nodes.BinOp(
-                            switch, nodes.IsNot, self._cancel_marker),
+                            parent, nodes.IsNot, self._cancel_marker),
                         nodes.Cache([value], nodes.Condition(
                             nodes.Or([
-                                nodes.BinOp(value, nodes.Equals, switch),
+                                nodes.BinOp(value, nodes.Equals, parent),
                                 nodes.BinOp(
                                     value, nodes.Equals, self.default_marker)
                             ]),
-                            nodes.Cancel([switch], node, self._cancel_marker),
+                            nodes.Cancel([parent], node, self._cancel_marker),
                         )),
                     ))
 
